@@ -44,3 +44,9 @@ Definition api_table (plural : bool) : list (bytes * bytes) :=
    rules compiled from this run's rules.go (Proofs/InflectorRegexp.v: it never runs out of fuel). *)
 Definition api_full (fixed : bool) (plural : bool) (s : bytes) : res bytes :=
   api fixed plural (suffix_fn (api_rules plural)) s.
+
+Definition api_unf (plural : bool) : list (list atom) := if plural then plural_unf else singular_unf.
+
+(* the string gets past the irregular table and the uninflected list, to the suffix rules *)
+Definition api_reaches_suffix (plural : bool) (s : bytes) : bool :=
+  reaches_suffix true (api_table plural) (api_unf plural) s.
